@@ -66,4 +66,4 @@ def run(run, P):
                             run.violation('R-MID-ZERO', f['name'], loc, 'mid-zero-separated:%s%d' % (op, K),
                                           '%s treats the message id 0 differently from every other id: 0 is a valid id (failure is COAP_INVALID_MID, -1), so the message that '
                                           'happens to carry it is handled as a failure' % short(x)[:60], [])
-    run.require(n >= (5 if run.cfg == 'base' else 2) or run.fixture_mode, 'R-MID-ZERO: fewer than 5 tests of message-id typed values found')
+    run.require_count(n >= (5 if run.cfg == 'base' else 2) or run.fixture_mode, 'R-MID-ZERO: fewer than 5 tests of message-id typed values found')
